@@ -19,13 +19,46 @@ CAP = 2 * 10 ** 9
 
 
 def pmap(fn, items, procs=16):
-    """fork-pool map also for short lists of slow items (core.pmap runs < 64 items serially)."""
+    """fork-pool map also for short lists of slow items (core.pmap runs < 64 items serially), with the
+    same protection as core.pmap: a worker exception travels back as text and a dead worker (OOM
+    kill, segfault) ends the map - both as MachineryFailure, never a hang."""
     import multiprocessing
+    import core
+    from concurrent.futures import ProcessPoolExecutor
+    from concurrent.futures.process import BrokenProcessPool
     items = list(items)
     if len(items) <= 1:
         return [fn(x) for x in items]
-    with multiprocessing.get_context("fork").Pool(min(procs, len(items))) as pool:
-        return pool.map(fn, items, 1)
+    out = []
+    try:
+        with ProcessPoolExecutor(max_workers=min(procs, len(items)),
+                                 mp_context=multiprocessing.get_context("fork")) as ex:
+            for tag, val in ex.map(core._pmap_chunk, [(fn, [x]) for x in items]):
+                if tag == "err":
+                    raise core.MachineryFailure("worker raised in pmap(%s):\n%s" % (getattr(fn, "__name__", fn), val))
+                out.extend(val)
+    except BrokenProcessPool as e:
+        raise core.MachineryFailure("a pmap worker process died (%s) in %s" % (e, getattr(fn, "__name__", fn)))
+    return out
+
+
+def guarded(fn):
+    """TOTAL OBSERVATION: whatever the code under test returns or raises inside a worker (wrong type,
+    wrong shape, nan, an unexpected exception class) becomes an observation that equals no
+    expectation - the worker returns {"unobservable": text} and the caller reports a violation."""
+    import functools
+    import traceback
+
+    @functools.wraps(fn)
+    def wrapper(item):
+        import core
+        try:
+            return fn(item)
+        except core.MachineryFailure:
+            raise
+        except Exception:   # noqa
+            return {"unobservable": traceback.format_exc()[-1500:]}
+    return wrapper
 
 
 def frac(q):
@@ -93,10 +126,21 @@ def side_dict(names, vec):
     return {names[i]: int(n) for i, n in enumerate(vec) if int(n) > 0}
 
 
-def make_substances(sysin):
+def comp_value(n, den):
+    """count n/den as the library would hold it: int when integral, else a float (as the parser gives)."""
+    f = Fraction(int(n), int(den))
+    return int(f) if f.denominator == 1 else float(f)
+
+
+def make_substances(sysin, labels=None):
+    """labels: {int key: label} - compositions keyed by the spec's labels instead of the integers."""
     from chempy import Substance
-    return [Substance(s["name"], composition={int(k): int(n) for k, n in seq(s["comp"])})
-            for s in sysin["subs"]]
+    out = []
+    for s in sysin["subs"]:
+        den = int(s.get("den", 1))
+        out.append(Substance(s["name"], composition={(labels[int(k)] if labels else int(k)): comp_value(n, den)
+                                                     for k, n in seq(s["comp"])}))
+    return out
 
 
 def make_reactions(sysin, exact=True):
@@ -114,19 +158,30 @@ def make_reactions(sysin, exact=True):
     return out
 
 
-_KEY_RE = re.compile(r"\((-?\d+): ")
+_KEY_RE = re.compile(r"\(([^\s():]+): ")
 
 
-def observe_build(make):
+def named_key(msg, labels=None):
+    """The composition key an error message names -> the spec's integer key (-999: none / unknown)."""
+    m = _KEY_RE.search(msg)
+    if not m:
+        return -999
+    tok = m.group(1)
+    if labels:
+        inv = {v: k for k, v in labels.items()}
+        return int(inv.get(tok, -999))
+    return int(tok) if re.fullmatch(r"-?\d{1,9}", tok) else -999
+
+
+def observe_build(make, labels=None):
     """Call the constructor; -> (rsys or None, observation dict)."""
     with warnings.catch_warnings():
         warnings.simplefilter("ignore")
         try:
             rsys = make()
         except Exception as e:  # noqa
-            m = _KEY_RE.search(str(e))
             return None, {"raised": True, "exc": type(e).__name__,
-                          "key": int(m.group(1)) if m else -999, "msg": str(e)[:200]}
+                          "key": named_key(str(e), labels), "msg": str(e)[:200]}
     return rsys, {"raised": False, "exc": "", "key": -999, "msg": ""}
 
 
@@ -144,8 +199,12 @@ CFG_KWARGS = {
     "checks_none": {"checks": ()},
     "checks_without_balance": {"checks": ["substance_keys", "duplicate"]},
 }
-FORMS = ["list", "tuple", "odict", "dict", "names+factory", "set+factory", "list+sort", "alias-odict"]
+FORMS = ["list", "tuple", "odict", "dict", "names+factory", "set+factory", "list+sort", "alias-odict", "string-keys"]
 SORTING_FORMS = ("dict", "set+factory", "list+sort")   # a plain dict counts as unordered: the constructor sorts
+
+
+def key_labels(sysin):
+    return {int(k): str(lab) for k, lab in sysin["keylabels"]}
 
 
 def build_variant(sysin, cfg_name, form):
@@ -156,6 +215,10 @@ def build_variant(sysin, cfg_name, form):
     subs = make_substances(sysin)
     table = {s.name: s for s in subs}
     kw = dict(CFG_KWARGS[cfg_name])
+    if form == "string-keys":
+        # composition keys are the spec's labels (strings that sort like the integer keys)
+        labels = key_labels(sysin)
+        return observe_build(lambda: ReactionSystem(make_reactions(sysin), make_substances(sysin, labels), **kw), labels)
     if form == "alias-odict":
         # the system knows its substances by the KEYS of the mapping (the spec's aliases); the
         # Substance objects keep their own names as mere labels; reactions are written over the keys
@@ -185,41 +248,57 @@ def build_variant(sysin, cfg_name, form):
     return observe_build(lambda: ReactionSystem(make_reactions(sysin), arg, **kw))
 
 
-def observe_check_balance(rsys, strict, throw):
+def observe_check_balance(rsys, strict, throw, labels=None):
     try:
         r = rsys.check_balance(strict=strict, throw=throw)
     except Exception as e:  # noqa
-        m = _KEY_RE.search(str(e))
         return {"ev": "CheckBalance", "strict": strict, "throw": throw, "raised": True, "exc": type(e).__name__,
-                "key": int(m.group(1)) if m else -999, "result": False}
+                "key": named_key(str(e), labels), "result": False}
     return {"ev": "CheckBalance", "strict": strict, "throw": throw, "raised": False, "exc": "", "key": -999,
             "result": bool(r)}
 
 
-def observe_violations(rsys, i, keys_arg, known_keys=None):
-    """rxn.composition_violation(substances, composition_keys=None | True | explicit list)."""
+def bad_event(ev, why, **kw):
+    """An observation that cannot be encoded: TLC rejects it (clause unobservable:<ev>)."""
+    return dict({"ev": ev, "bad": str(why)[:200]}, **kw)
+
+
+def key_to_int(k, labels=None):
+    if labels:
+        inv = {v: kk for kk, v in labels.items()}
+        return inv.get(k)
+    return k if isinstance(k, int) and not isinstance(k, bool) else None
+
+
+def observe_violations(rsys, i, keys_arg, known_keys=None, labels=None):
+    """rxn.composition_violation(substances, composition_keys=None | True | explicit list);
+    keys_arg / known_keys are the spec's integer keys (translated through labels for the call)."""
     rxn = rsys.rxns[i]
+    out = lambda k: labels[k] if labels else k          # noqa: E731
     if keys_arg is True:
         net, keys = rxn.composition_violation(rsys.substances, True)
+        keys = [key_to_int(k, labels) for k in keys]
         allkeys = True
     elif keys_arg is None:
         net = rxn.composition_violation(rsys.substances)
         keys, allkeys = (list(known_keys) if known_keys is not None else None), True
     else:
-        net = rxn.composition_violation(rsys.substances, list(keys_arg))
+        net = rxn.composition_violation(rsys.substances, [out(k) for k in keys_arg])
         keys, allkeys = list(keys_arg), False
-    netq = [enc_q(x) for x in net]
-    if any(e is None or e[1] != 1 for e in netq):
+    if keys is None:
         return None
-    return {"ev": "Violations", "i": i + 1, "keys": None if keys is None else [int(k) for k in keys],
-            "net": [e[0] for e in netq], "allkeys": allkeys}
+    netq = [enc_q(x) for x in net]
+    if any(e is None for e in netq) or any(k is None for k in keys):
+        return bad_event("Violations", "net=%r keys=%r" % (list(net), keys), i=i + 1)
+    return {"ev": "Violations", "i": i + 1, "keys": [int(k) for k in keys], "net": netq, "allkeys": allkeys}
 
 
 def observe_charge_violation(rsys, i):
-    e = enc_q(rsys.rxns[i].charge_neutrality_violation(rsys.substances))
-    if e is None or e[1] != 1:
-        return None
-    return {"ev": "ChargeViolation", "i": i + 1, "v": e[0]}
+    v = rsys.rxns[i].charge_neutrality_violation(rsys.substances)
+    e = enc_q(v)
+    if e is None:
+        return bad_event("ChargeViolation", repr(v), i=i + 1)
+    return {"ev": "ChargeViolation", "i": i + 1, "v": e}
 
 
 def build_text(sysin):
@@ -256,21 +335,47 @@ def int_matrix(m):
     return out
 
 
-def observe_bvectors(rsys):
-    A, keys = rsys.composition_balance_vectors()
-    ks = []
-    for k in keys:
-        if not isinstance(k, int) or isinstance(k, bool):
+def q_matrix(m):
+    out = []
+    for row in m:
+        r = [enc_q(x) for x in row]
+        if any(e is None for e in r):
             return None
-        ks.append(k)
-    B = int_matrix(A)
-    if B is None:
-        return None
-    return {"B": B, "keys": ks}
+        out.append(r)
+    return out
+
+
+def observe_bvectors(rsys, labels=None, src="composition_balance_vectors"):
+    """-> BVectors event (B entries as [n, d]); an unencodable answer is a bad event."""
+    A, keys = rsys.composition_balance_vectors()
+    ks = [key_to_int(k, labels) for k in keys]
+    B = q_matrix(A)
+    if B is None or any(k is None for k in ks):
+        return bad_event("BVectors", "B=%r keys=%r" % (A, list(keys)), src=src)
+    return {"ev": "BVectors", "B": B, "keys": ks, "src": src}
+
+
+def observe_invariants(odesys):
+    """odesys.linear_invariants / linear_invariant_names -> BVectors event."""
+    li = odesys.linear_invariants
+    A = [] if li is None else q_matrix(li.tolist() if hasattr(li, "tolist") else li)
+    try:
+        keys = [int(x) for x in (odesys.linear_invariant_names or [])]
+    except (TypeError, ValueError):
+        keys = None
+    if A is None or keys is None:
+        return bad_event("BVectors", "linear_invariants=%r names=%r" % (li, odesys.linear_invariant_names),
+                         src="odesys.linear_invariants")
+    return {"ev": "BVectors", "B": A, "keys": keys, "src": "odesys.linear_invariants"}
 
 
 def observe_net(rsys):
-    return int_matrix(rsys.net_stoichs().tolist())
+    """-> NetStoich event."""
+    N = rsys.net_stoichs().tolist()
+    M = int_matrix(N)
+    if M is None:
+        return bad_event("NetStoich", repr(N))
+    return {"ev": "NetStoich", "N": M}
 
 
 def observe_rates(rsys, names, cvec):
@@ -319,9 +424,10 @@ def project_linear_form(expr, elim_idx, deps, y0s, sympy):
     w = [Fraction(0)] * n
     const = Fraction(0)
     for mon, coef in poly.terms():
-        if not coef.is_Rational:
+        e = enc_q(coef) if (coef.is_Rational or coef.is_Float) else None
+        if e is None:
             return None
-        cf = Fraction(int(coef.p), int(coef.q))
+        cf = Fraction(e[0], e[1])
         if sum(mon) == 0:
             const += cf
             continue
@@ -388,6 +494,7 @@ def observe_drift(yout, names_out, names, B, c0):
     import numpy as np
     if not B:   # a system without any composition key has no invariant to drift
         return []
+    B = [[qfloat(x) if isinstance(x, (list, tuple)) else float(x) for x in row] for row in B]
     col = [list(names_out).index(n) for n in names]
     Y = np.asarray(yout, dtype=float)[:, col]
     Bm = np.asarray(B, dtype=float)
@@ -400,7 +507,8 @@ def observe_drift(yout, names_out, names, B, c0):
 def system_events(sysin):
     evs = []
     for s in sysin["subs"]:
-        evs.append({"ev": "Subst", "name": s["name"], "comp": [[int(k), int(n)] for k, n in seq(s["comp"])]})
+        evs.append({"ev": "Subst", "name": s["name"], "comp": [[int(k), int(n)] for k, n in seq(s["comp"])],
+                    "den": int(s.get("den", 1))})
     for r in sysin["rxns"]:
         evs.append({"ev": "Rxn", "reac": [int(x) for x in r["reac"]], "prod": [int(x) for x in r["prod"]],
                     "ireac": [int(x) for x in r["ireac"]], "iprod": [int(x) for x in r["iprod"]],
